@@ -1,5 +1,6 @@
 import Amqp.Lemmas.Errors
 import Amqp.Gen.Skel
+import Amqp.Gen.ChanErr
 /-!
 # C07 — broker-reported errors are raised faithfully and only where they belong
 
@@ -139,6 +140,11 @@ theorem channel_close_race :
 theorem channel_close_race_needs_state_first :
     ∃ s ∈ merges 3 4, (race s readerSteps [.connCheck, .excCheck, .readClosed, .closedTest] {}).result =
       some (some .codeless) := by decide
+
+/-- `_close_channel`: CLOSING first (an application `close()` that comes now backs off, the number is not free
+    yet), then the CloseOk, then the local clean-up, the reason, and CLOSED last (regenerated) -/
+theorem close_channel_order : Gen.ChanErr.closeChannelOrder =
+    ["state:CLOSING", "closeok", "drop-tags", "clear-inbound", "reason", "state:CLOSED"] := by decide
 
 /-- the reply-code table of `exception.py` names every AMQP 0-9-1 error constant correctly -/
 def amqpErrorConstants : List (Nat × String) :=
